@@ -324,7 +324,7 @@ func genTotalExpr(r *rand.Rand, n int, emit func(args ...string)) {
 
 func init() {
 	register(&stream{name: "total.bytes", gen: genTotalBytes, impl: implTotalBytes, prop: propTotalBytes,
-		class: func(args []string, out string) string { return out },
+		class:      func(args []string, out string) string { return out },
 		nontrivial: func(args []string, out string) bool { return len(args[0]) > 10 }})
 	register(&stream{name: "total.expr", gen: genTotalExpr, impl: implParseExpr,
 		prop: func(args []string) string {
